@@ -1727,4 +1727,335 @@ func stateAtOrBelow(ctx context.Context, s *stater, lower *State, splitID uint64
 	return
 }
 `},
+	// named constant (the restart value of the lower-bound finder)
+	{Name: "b-finder-restart-named-constant", File: "replication/search.go",
+		Find: `			lowerID = 1
+`,
+		Replace: `			const restartID = 1
+			lowerID = restartID
+`},
+	// extract helper (the restart value of the lower-bound finder comes from a function)
+	{Name: "b-finder-restart-via-helper", File: "replication/search.go",
+		Find: `			lowerID = 1
+		}
+
+		if lower != nil {
+			break
+		}
+
+		// no lower yet, so try a higher id (binary search wise)
+		newID := (lowerID + upper.SeqNum) / 2
+		if newID <= lowerID {
+			// nothing suitable found, so upper is probably the best we can do
+			return upper, upper, nil
+		}
+		lowerID = newID
+	}
+
+	return lower, upper, nil
+}
+`,
+		Replace: `			lowerID = firstStateID()
+		}
+
+		if lower != nil {
+			break
+		}
+
+		// no lower yet, so try a higher id (binary search wise)
+		newID := (lowerID + upper.SeqNum) / 2
+		if newID <= lowerID {
+			// nothing suitable found, so upper is probably the best we can do
+			return upper, upper, nil
+		}
+		lowerID = newID
+	}
+
+	return lower, upper, nil
+}
+
+// firstStateID is the lowest sequence number a state file can have.
+func firstStateID() uint64 {
+	return 1
+}
+`},
+	// representation change (the two bounds become fields of a struct read and updated by pointer methods; scans inline)
+	{Name: "b-search-range-struct-methods", File: "replication/search.go",
+		Find: `func findInRange(ctx context.Context, s *stater, lower, upper *State, timestamp time.Time) (*State, error) {
+	// we do a binary search through the range to find the sequence number
+	for lower.SeqNum+1 < upper.SeqNum {
+		// could do better here
+		splitID := (lower.SeqNum + upper.SeqNum) / 2
+
+		split, err := s.State(ctx, splitID)
+		if err != nil && !NotFound(err) {
+			return nil, err
+		}
+
+		if split == nil {
+			// file missing, search the next towards lower
+			sID := splitID - 1
+
+			for split == nil && lower.SeqNum < sID {
+				split, err = s.State(ctx, sID)
+				if err != nil && !NotFound(err) {
+					return nil, err
+				}
+
+				sID--
+			}
+		}
+
+		if split == nil {
+			// still missing? search the next towards upper
+			sID := splitID + 1
+
+			for split == nil && sID < upper.SeqNum {
+				split, err = s.State(ctx, sID)
+				if err != nil && !NotFound(err) {
+					return nil, err
+				}
+
+				sID++
+			}
+		}
+
+		if split == nil {
+			// nothing between lower and upper, so upper is
+			// the first state at or after the timestamp.
+			return upper, nil
+		}
+
+		// set the new boundary
+		if timestamp.After(split.Timestamp) {
+			lower = split
+		} else {
+			upper = split
+		}
+	}
+
+	// timestamp is now between lower and upper, we want to return the upper.
+	return upper, nil
+}
+`,
+		Replace: `// stateRange is the pair of states the binary search narrows down: the timestamp
+// looked for is after lower and at or before upper.
+type stateRange struct {
+	lower, upper *State
+}
+
+// adjacent is true if there is no sequence number left between the bounds.
+func (r *stateRange) adjacent() bool {
+	return r.lower.SeqNum+1 >= r.upper.SeqNum
+}
+
+// middle is the sequence number to look at next.
+func (r *stateRange) middle() uint64 {
+	return (r.lower.SeqNum + r.upper.SeqNum) / 2
+}
+
+// narrow replaces one of the bounds by a state found between them.
+func (r *stateRange) narrow(split *State, timestamp time.Time) {
+	if timestamp.After(split.Timestamp) {
+		r.lower = split
+	} else {
+		r.upper = split
+	}
+}
+
+func findInRange(ctx context.Context, s *stater, lower, upper *State, timestamp time.Time) (*State, error) {
+	window := stateRange{lower: lower, upper: upper}
+
+	// we do a binary search through the range to find the sequence number
+	for !window.adjacent() {
+		// could do better here
+		splitID := window.middle()
+
+		split, err := s.State(ctx, splitID)
+		if err != nil && !NotFound(err) {
+			return nil, err
+		}
+
+		if split == nil {
+			// file missing, search the next towards lower
+			sID := splitID - 1
+
+			for split == nil && window.lower.SeqNum < sID {
+				split, err = s.State(ctx, sID)
+				if err != nil && !NotFound(err) {
+					return nil, err
+				}
+
+				sID--
+			}
+		}
+
+		if split == nil {
+			// still missing? search the next towards upper
+			sID := splitID + 1
+
+			for split == nil && sID < window.upper.SeqNum {
+				split, err = s.State(ctx, sID)
+				if err != nil && !NotFound(err) {
+					return nil, err
+				}
+
+				sID++
+			}
+		}
+
+		if split == nil {
+			// nothing between lower and upper, so upper is
+			// the first state at or after the timestamp.
+			return window.upper, nil
+		}
+
+		// set the new boundary
+		window.narrow(split, timestamp)
+	}
+
+	// timestamp is now between lower and upper, we want to return the upper.
+	return window.upper, nil
+}
+`},
+	// representation change (bounds in a struct with value methods; the update returns a new range)
+	{Name: "b-search-range-struct-value", File: "replication/search.go",
+		Find: `func findInRange(ctx context.Context, s *stater, lower, upper *State, timestamp time.Time) (*State, error) {
+	// we do a binary search through the range to find the sequence number
+	for lower.SeqNum+1 < upper.SeqNum {
+		// could do better here
+		splitID := (lower.SeqNum + upper.SeqNum) / 2
+
+		split, err := s.State(ctx, splitID)
+		if err != nil && !NotFound(err) {
+			return nil, err
+		}
+
+		if split == nil {
+			// file missing, search the next towards lower
+			sID := splitID - 1
+
+			for split == nil && lower.SeqNum < sID {
+				split, err = s.State(ctx, sID)
+				if err != nil && !NotFound(err) {
+					return nil, err
+				}
+
+				sID--
+			}
+		}
+
+		if split == nil {
+			// still missing? search the next towards upper
+			sID := splitID + 1
+
+			for split == nil && sID < upper.SeqNum {
+				split, err = s.State(ctx, sID)
+				if err != nil && !NotFound(err) {
+					return nil, err
+				}
+
+				sID++
+			}
+		}
+
+		if split == nil {
+			// nothing between lower and upper, so upper is
+			// the first state at or after the timestamp.
+			return upper, nil
+		}
+
+		// set the new boundary
+		if timestamp.After(split.Timestamp) {
+			lower = split
+		} else {
+			upper = split
+		}
+	}
+
+	// timestamp is now between lower and upper, we want to return the upper.
+	return upper, nil
+}
+`,
+		Replace: `// stateRange is the pair of states the binary search narrows down: the timestamp
+// looked for is after lower and at or before upper.
+type stateRange struct {
+	lower, upper *State
+}
+
+// adjacent is true if there is no sequence number left between the bounds.
+func (r stateRange) adjacent() bool {
+	return r.lower.SeqNum+1 >= r.upper.SeqNum
+}
+
+// middle is the sequence number to look at next.
+func (r stateRange) middle() uint64 {
+	return (r.lower.SeqNum + r.upper.SeqNum) / 2
+}
+
+// narrowed is the range with one of the bounds replaced by a state found between them.
+func (r stateRange) narrowed(split *State, timestamp time.Time) stateRange {
+	if timestamp.After(split.Timestamp) {
+		r.lower = split
+	} else {
+		r.upper = split
+	}
+	return r
+}
+
+func findInRange(ctx context.Context, s *stater, lower, upper *State, timestamp time.Time) (*State, error) {
+	window := stateRange{lower: lower, upper: upper}
+
+	// we do a binary search through the range to find the sequence number
+	for !window.adjacent() {
+		// could do better here
+		splitID := window.middle()
+
+		split, err := s.State(ctx, splitID)
+		if err != nil && !NotFound(err) {
+			return nil, err
+		}
+
+		if split == nil {
+			// file missing, search the next towards lower
+			sID := splitID - 1
+
+			for split == nil && window.lower.SeqNum < sID {
+				split, err = s.State(ctx, sID)
+				if err != nil && !NotFound(err) {
+					return nil, err
+				}
+
+				sID--
+			}
+		}
+
+		if split == nil {
+			// still missing? search the next towards upper
+			sID := splitID + 1
+
+			for split == nil && sID < window.upper.SeqNum {
+				split, err = s.State(ctx, sID)
+				if err != nil && !NotFound(err) {
+					return nil, err
+				}
+
+				sID++
+			}
+		}
+
+		if split == nil {
+			// nothing between lower and upper, so upper is
+			// the first state at or after the timestamp.
+			return window.upper, nil
+		}
+
+		// set the new boundary
+		window = window.narrowed(split, timestamp)
+	}
+
+	// timestamp is now between lower and upper, we want to return the upper.
+	return window.upper, nil
+}
+`},
 }
